@@ -27,6 +27,13 @@ impl FqVarExtension for FqVar {
     /// - Case 3: `(false, 0)` if `den` is zero;
     /// - Case 4: `(false, sqrt(zeta*num/den))` if `num` and `den` are both nonzero and `num/den` is nonsquare;
     fn isqrt(&self) -> Result<(Boolean<Fq>, FqVar), SynthesisError> {
+        // A constant has no constraint system in which the hints below could be
+        // allocated: compute the result out of circuit and return constants.
+        if let FqVar::Constant(den) = self {
+            let (was_square, y) = Fq::sqrt_ratio_zeta(&Fq::ONE, den);
+            return Ok((Boolean::constant(was_square), FqVar::constant(y)));
+        }
+
         // During mode `SynthesisMode::Setup`, value() will not provide a field element.
         let den = self.value().unwrap_or(Fq::ONE);
 
